@@ -97,3 +97,245 @@ pub fn corr(run: &mut Run) {
         }
     }
 }
+
+// ------------------------------------------------------------------------------------------------
+// (T) ring obligations: the compiled graph of an arithmetic program, printed as a let-chain over an
+// arbitrary commutative ring, must reveal the source polynomial.
+// ------------------------------------------------------------------------------------------------
+
+use ciphercore_base::data_types::*;
+use ciphercore_base::graphs::Operation;
+
+#[derive(Clone, Debug)]
+enum Sh {
+    /// a ring-valued node: the name of its let-variable
+    Val(String),
+    /// a PRF key: identity = index of the Random node that created it
+    Key(usize),
+    Tup(Vec<Sh>),
+}
+
+/// all elements of a constant must be equal and small; returns the integer
+fn small_const(v: &Value, t: &Type) -> Option<i128> {
+    let st = t.get_scalar_type();
+    let shape = match t {
+        Type::Array(s, _) => s.clone(),
+        _ => vec![1],
+    };
+    let xs = crate::vals::elems_of(v, &shape, st).ok()?;
+    let first = match xs.first()? {
+        crate::vals::Z::I(x) => *x,
+        _ => return None,
+    };
+    if xs.iter().all(|z| matches!(z, crate::vals::Z::I(x) if *x == first)) && (0..64).contains(&first) {
+        Some(first)
+    } else {
+        None
+    }
+}
+
+/// Print a graph as a Lean let-chain. `shared_inputs[i]`: input i is a 3-tuple of shares.
+/// Returns (lets, expression of the revealed output) or None if an operation is outside the fragment.
+fn shallow(ir: &[IrNode], out: u64, prefix: &str, reveal_sum: bool) -> Option<(String, String)> {
+    let mut sh: Vec<Sh> = vec![];
+    let mut lets = String::new();
+    let mut input_id = 0;
+    for (i, n) in ir.iter().enumerate() {
+        let name = format!("{}{}", prefix, i);
+        let dep = |j: usize| -> &Sh { &sh[n.deps[j] as usize] };
+        let val = |s: &Sh| -> Option<String> { if let Sh::Val(x) = s { Some(x.clone()) } else { None } };
+        let s = match &n.op {
+            Operation::Input(t) => {
+                input_id += 1;
+                let k = input_id - 1;
+                if let Type::Tuple(_) = t {
+                    Sh::Tup((0..3).map(|j| Sh::Val(format!("(sh {} {})", k, j))).collect())
+                } else {
+                    lets += &format!("  let {} := inp {}\n", name, k);
+                    Sh::Val(name)
+                }
+            }
+            Operation::Random(t) => {
+                if *t == array_type(vec![128], BIT) {
+                    Sh::Key(i)
+                } else {
+                    lets += &format!("  let {} := rnd {}\n", name, i);
+                    Sh::Val(name)
+                }
+            }
+            Operation::NOP => dep(0).clone(),
+            Operation::PRF(iv, _) => {
+                if let Sh::Key(k) = dep(0) {
+                    lets += &format!("  let {} := prf {} {}\n", name, k, iv);
+                    Sh::Val(name)
+                } else {
+                    return None;
+                }
+            }
+            Operation::Add | Operation::Subtract | Operation::Multiply => {
+                let a = val(dep(0))?;
+                let b = val(dep(1))?;
+                let o = match n.op {
+                    Operation::Add => "+",
+                    Operation::Subtract => "-",
+                    _ => "*",
+                };
+                lets += &format!("  let {} := {} {} {}\n", name, a, o, b);
+                Sh::Val(name)
+            }
+            Operation::Constant(t, v) => {
+                let c = small_const(v, t)?;
+                lets += &format!("  let {} := ({} : R)\n", name, c);
+                Sh::Val(name)
+            }
+            Operation::Zeros(_) => {
+                lets += &format!("  let {} := (0 : R)\n", name);
+                Sh::Val(name)
+            }
+            Operation::Ones(_) => {
+                lets += &format!("  let {} := (1 : R)\n", name);
+                Sh::Val(name)
+            }
+            Operation::CreateTuple => Sh::Tup(n.deps.iter().map(|d| sh[*d as usize].clone()).collect()),
+            Operation::TupleGet(j) => {
+                if let Sh::Tup(v) = dep(0) {
+                    v.get(*j as usize)?.clone()
+                } else {
+                    return None;
+                }
+            }
+            _ => return None,
+        };
+        sh.push(s);
+    }
+    let o = &sh[out as usize];
+    let expr = if reveal_sum {
+        if let Sh::Tup(v) = o {
+            if v.len() != 3 {
+                return None;
+            }
+            let parts: Option<Vec<String>> = v.iter().map(|s| if let Sh::Val(x) = s { Some(x.clone()) } else { None }).collect();
+            let p = parts?;
+            format!("{} + {} + {}", p[0], p[1], p[2])
+        } else {
+            return None;
+        }
+    } else if let Sh::Val(x) = o {
+        x.clone()
+    } else {
+        return None;
+    };
+    Some((lets, expr))
+}
+
+pub fn gen(run: &mut Run, out_dir: &str) {
+    use std::fmt::Write as _;
+    let mut rng = run.rng("gen");
+    let n_graphs = run.tier.scale(40, 240);
+    let chunk = run.tier.scale(5, 15);
+    let header = "import Mathlib.Tactic.Ring\nset_option maxRecDepth 100000\nset_option linter.unusedVariables false\nset_option linter.unusedTactic false\nnamespace CCV.Generated.C01\n\n";
+    let mut files: Vec<String> = vec![];
+    let mut cur = String::new();
+    let mut in_cur = 0;
+    let mut obligations = vec![];
+    let mut k = 0;
+    let mut attempts = 0;
+    while k < n_graphs && attempts < n_graphs * 30 {
+        attempts += 1;
+        let prog = gen_aprog(&mut rng, 5, false);
+        if prog.st == BIT && prog.ops.iter().any(|o| matches!(o, AOp::Const(_))) {
+            continue;
+        }
+        // keep the polynomial small enough for `ring` to normalise quickly: total degree <= 4
+        let mut deg: Vec<u32> = vec![];
+        for o in &prog.ops {
+            deg.push(match o {
+                AOp::Input => 1,
+                AOp::Const(_) => 0,
+                AOp::Add(a, b) | AOp::Sub(a, b) => deg[*a].max(deg[*b]),
+                AOp::Mul(a, b) => deg[*a] + deg[*b],
+            });
+        }
+        if *deg.last().unwrap() > 4 || deg.iter().any(|d| *d > 4) {
+            continue;
+        }
+        let ctx = match prog.build() {
+            Ok(c) => c,
+            Err(_) => continue,
+        };
+        let ins: Vec<IOStatus> = (0..prog.n_inputs()).map(|_| gen_status(&mut rng)).collect();
+        if ins.iter().all(|s| matches!(s, IOStatus::Public)) {
+            continue;
+        }
+        let outs = gen_outputs(&mut rng);
+        let mode = rng.below(3) as u8;
+        let cc = match catch(|| compile(&ctx, &ins, &outs, mode)) {
+            Ok(Ok(c)) => c,
+            _ => continue,
+        };
+        let (ir, out) = match cc.get_main_graph().and_then(|g| ir_of_graph(&g)) {
+            Ok(x) => x,
+            _ => continue,
+        };
+        if ir.len() > 160 {
+            continue;
+        }
+        let (clets, cexpr) = match shallow(&ir, out, "n", outs.is_empty()) {
+            Some(x) => x,
+            None => {
+                run.count("gen:outside-fragment");
+                continue;
+            }
+        };
+        // source side: plain inputs; a shared input is the sum of its shares
+        let mut slets = String::new();
+        let mut input_id = 0;
+        for (i, o) in prog.ops.iter().enumerate() {
+            let e = match o {
+                AOp::Input => {
+                    input_id += 1;
+                    let j = input_id - 1;
+                    if matches!(ins[j], IOStatus::Shared) {
+                        format!("(sh {} 0) + (sh {} 1) + (sh {} 2)", j, j, j)
+                    } else {
+                        format!("inp {}", j)
+                    }
+                }
+                AOp::Const(c) => format!("({} : R)", if prog.st == BIT { c & 1 } else { *c }),
+                AOp::Add(a, b) => format!("s{} + s{}", a, b),
+                AOp::Sub(a, b) => format!("s{} - s{}", a, b),
+                AOp::Mul(a, b) => format!("s{} * s{}", a, b),
+            };
+            slets += &format!("  let s{} := {}\n", i, e);
+        }
+        if prog.ops.iter().any(|o| matches!(o, AOp::Const(c) if *c < 0)) {
+            continue;
+        }
+        let cfg = config_name(&ins, &outs, mode);
+        writeln!(cur, "/-- {} ; {} ; compiled graph: {} nodes -/", prog.describe(), cfg, ir.len()).unwrap();
+        writeln!(cur, "theorem p{} {{R : Type}} [CommRing R] (inp : Nat → R) (sh : Nat → Nat → R) (prf : Nat → Nat → R) (rnd : Nat → R) :\n  (\n{}  {}) = (\n{}  s{}) := by\n  intros; ring\n", k, clets, cexpr, slets, prog.ops.len() - 1).unwrap();
+        obligations.push(serde_json::json!({"name": format!("CCV.Generated.C01.p{}", k),
+            "says": format!("compiled graph of [{}] {} ({} nodes) reveals the source polynomial, in every commutative ring, for all inputs / shares / PRF outputs", prog.describe(), cfg, ir.len())}));
+        run.count(&format!("gen:type:{}", crate::vals::st_name(prog.st)));
+        k += 1;
+        in_cur += 1;
+        if in_cur == chunk {
+            files.push(std::mem::take(&mut cur));
+            in_cur = 0;
+        }
+    }
+    if in_cur > 0 {
+        files.push(cur);
+    }
+    let mut imports = String::new();
+    for (i, body) in files.iter().enumerate() {
+        std::fs::write(format!("{}/C01_{}.lean", out_dir, i), format!("{}{}end CCV.Generated.C01\n", header, body)).expect("write");
+        imports += &format!("import CCV.Generated.C01_{}\n", i);
+    }
+    for i in files.len()..400 {
+        let _ = std::fs::remove_file(format!("{}/C01_{}.lean", out_dir, i));
+    }
+    std::fs::write(format!("{}/C01.lean", out_dir), imports).expect("write");
+    std::fs::write(format!("{}/C01_obligations.json", out_dir), serde_json::to_string_pretty(&obligations).unwrap()).expect("write");
+    println!("generated {} ring obligations in {} files ({} attempts)", k, files.len(), attempts);
+}
